@@ -147,7 +147,7 @@ func runCfg(run *rep.Run, c cfg, id int) {
 		b := backend.NewStd(name, []string{"filler-" + name}, llmresp.Handler(name))
 		b.KeepBodies = true
 		backs = append(backs, b)
-		eps = append(eps, world.Endpoint{Name: name, URL: b.URL(), Type: "ollama", Priority: 100, CheckInterval: 2 * time.Second, CheckTimeout: 500 * time.Millisecond})
+		eps = append(eps, world.Endpoint{Name: name, URL: b.URL(), Type: "ollama", Priority: 100, CheckInterval: 2 * time.Second, CheckTimeout: 1500 * time.Millisecond})
 	}
 	defer func() {
 		for _, b := range backs {
